@@ -169,7 +169,7 @@ func (x indexMode) meet(y indexMode) indexMode {
 	}
 	// Use int representation and return min.
 	if x < y {
-		return y
+		return x
 	}
-	return x
+	return y
 }
